@@ -400,14 +400,21 @@ func parent(args []string) int {
 	binPlain := filepath.Join(binDir, "vrun")
 	binRace := filepath.Join(binDir, "vrun-race")
 	tmpdir := filepath.Join(vd, "evidence", "tmp", id)
+	replayDir := filepath.Join(vd, "evidence", "replay")
+	if os.Getenv("VERIF_REPO") != "" && os.Getenv("VERIF_BIN_DIR") != "" {
+		// a run against another checkout (a seeded change under validation) keeps its scratch files and replay files with its
+		// binaries, away from those of a plain run of the same property that may be going on at the same time
+		tmpdir = filepath.Join(binDir, "tmp")
+		replayDir = filepath.Join(binDir, "replay")
+	}
 	os.RemoveAll(tmpdir)
 	os.MkdirAll(tmpdir, 0o755)
-	if old, _ := filepath.Glob(filepath.Join(vd, "evidence", "replay", id+"-*")); len(old) > 0 {
+	if old, _ := filepath.Glob(filepath.Join(replayDir, id+"-*")); len(old) > 0 {
 		for _, o := range old {
 			os.Remove(o)
 		}
 	}
-	os.MkdirAll(filepath.Join(vd, "evidence", "replay"), 0o755)
+	os.MkdirAll(replayDir, 0o755)
 
 	total := p.NumCases(tier)
 	nsh := 16
@@ -606,7 +613,7 @@ func parent(args []string) int {
 		if len(name) > 80 {
 			name = name[:80]
 		}
-		rpath := filepath.Join(vd, "evidence", "replay", id+"-"+name+".json")
+		rpath := filepath.Join(replayDir, id+"-"+name+".json")
 		b, _ := json.MarshalIndent(v, "", " ")
 		os.WriteFile(rpath, b, 0o644)
 		fmt.Printf("VIOLATION property=%s replay=%s\n", id, rpath)
